@@ -104,8 +104,14 @@ def arrays_equal(a, b):
 def run_one(ch, env):
     fmt, mode = COMBOS[ch.draw(len(COMBOS), kind="combo")]
     npos = 1 + ch.draw(2, p0=0.7, kind="npos")
-    positions = [Pos(1, 0, 0), Pos(1, 1, 0)][:npos]
+    # mostly level-1 tiles; sometimes deep tiles with large indices (other path arithmetic, longer names)
+    if ch.draw(5, kind="deep_tile_positions") == 4:
+        positions = [Pos(11, 1733, 2047), Pos(11, 1734, 2047)][:npos]
+    else:
+        positions = [Pos(1, 0, 0), Pos(1, 1, 0)][:npos]
     nproc = 2 + ch.draw(4, kind="nproc")
+    if ch.draw(12, kind="many_updaters") == 11:
+        nproc = 8 + ch.draw(5, kind="many_updaters_n")      # "any number of concurrent updaters"
     explicit_format = ch.draw(2, kind="explicit_format") == 1
     plans = []
     uid = 0
